@@ -184,6 +184,20 @@ class Client(threading.Thread):
                         elif kind == 'path':
                             if status != 404:
                                 verdict = '%s %s: status %d, expected 404' % (method, path, status)
+                elif kind == 'abandon':
+                    status = 0
+                    try:
+                        s = socket.create_connection(('127.0.0.1', self.port), timeout=10)
+                        try:
+                            for c in req['chunks']:
+                                s.sendall(c)
+                            if req.get('half'):
+                                s.shutdown(socket.SHUT_WR)
+                            time.sleep(req['delay'])
+                        finally:
+                            s.close()
+                    except OSError:
+                        pass
                 elif kind == 'oversized':
                     n = req['size']
                     head = b'POST / HTTP/1.1\r\nHost: x\r\nContent-Length: %d\r\n\r\n' % n
@@ -265,6 +279,11 @@ def make_plan(rng, ctx, circles, n, heavy):
                          'body': rng.choice([None, b'+']), 'fresh': rng.random() < 0.3})
         elif q < 0.86:
             plan.append({'kind': 'oversized', 'size': rng.choice([LIMIT + 1, LIMIT + 4096, 3 * LIMIT])})
+        elif q < 0.90:
+            # a complete, well-formed POST whose client hangs up before (or while) the answer is produced
+            body = ('a b c d e f g h\n' * rng.randint(200, 1200)).encode()
+            plan.append({'kind': 'abandon', 'delay': rng.choice([0.0, 0.005, 0.02, 0.03, 0.06]), 'half': rng.random() < 0.3,
+                         'chunks': [b'POST / HTTP/1.1\r\nHost: x\r\nContent-Length: %d\r\n\r\n' % len(body) + body]})
         elif q < 0.93:
             name, chunks, kw = rng.choice([
                 ('garbage', [b'GARBAGE\r\n\r\n'], {}),
@@ -316,15 +335,21 @@ def make_plan(rng, ctx, circles, n, heavy):
     return plan
 
 
-def probe(port, version):
+def probe(port, version, want_box=None):
     for attempt in range(3):
         try:
             c = http.client.HTTPConnection('127.0.0.1', port, timeout=30)
             c.request('GET', '/')
             r = c.getresponse()
             d = r.read()
+            ok = r.status == 200 and d.decode('utf-8', 'replace') == version
+            if ok and want_box is not None:
+                c.request('POST', '/', body=b'+--+\n|  |\n+--+\n')
+                r = c.getresponse()
+                d = r.read()
+                ok = r.status == 200 and d.decode('utf-8', 'replace') == want_box
             c.close()
-            if r.status == 200 and d.decode('utf-8', 'replace') == version:
+            if ok:
                 return True
         except (OSError, http.client.HTTPException):
             time.sleep(0.5)
@@ -385,6 +410,8 @@ def run_shard(ctx, shard):
     version = ctx.extra['version']
     srv = Server(shard.get('binary') or ctx.extra['server'], env=shard.get('env'))
     aged = None
+    rb = ctx.conv('+--+\n|  |\n+--+\n', entry=0)
+    box = rb.out if rb.ok else None
     try:
         for burst in range(shard['bursts']):
             if aged is None or aged.port != srv.port:
@@ -419,10 +446,10 @@ def run_shard(ctx, shard):
             if not srv.alive():
                 ctx._violation({'burst': burst, 'clients': nclients}, 'the server process died (status %s) during a burst of %d clients' % (srv.p.returncode, nclients))
                 srv = Server(shard.get('binary') or ctx.extra['server'], env=shard.get('env'))
-            elif probe(srv.port, version):
+            elif probe(srv.port, version, box):
                 ctx.tag('probes_answered')
             else:
-                ctx._violation({'burst': burst, 'clients': nclients}, 'the server does not answer a GET within 3 x 30 s after a burst of %d clients' % nclients)
+                ctx._violation({'burst': burst, 'clients': nclients}, 'the server does not answer a GET and a POST of a small box correctly within 3 x 30 s after a burst of %d clients' % nclients)
         if aged is not None and srv.alive():
             v = aged.finish()
             if v:
